@@ -100,6 +100,7 @@ impl ServerWorker {
         &&& self.state is Unavailable
     }
 }
+//@once spawn
 /// actix_rt::spawn of the worker future.  PROPHECY name `spawned_worker()`: the worker handed to the (one) spawn made
 /// during the verified call
 pub uninterp spec fn spawned_worker() -> Option<ServerWorker>;
